@@ -306,10 +306,9 @@ func runNALU(c *naluCodec, thorough bool) int64 {
 	}
 	l1, l2, l3 := 2, 3, 0
 	if thorough {
-		l1, l2, l3 = 3, 3, 2
+		l1, l2, l3 = 3, 3, 1
 		if len(c.syms) > 10 {
 			l1 = 2 // h265: 12 symbols
-			l3 = 1
 		}
 	} else if len(c.syms) > 10 {
 		l1 = 1 // h265 quick
